@@ -1,7 +1,7 @@
 """C20 — program instances are isolated and independent of the rayon pool they run in."""
 from . import core, eng, gen, engcheck
 
-THEOREMS = []
+THEOREMS = ["insert_within", "insertMut_within", "moveContents_within", "new_within", "mergeStep_pool_independent"]
 TRUSTED = ["Lean 4.33.0 kernel", "axioms: propext, Classical.choice, Quot.sound only (audited per theorem)",
            "statement: Props/C20.lean",
            "tie: several instances (same and different generated types, serial and ascent_par!) run at the same time on OS threads; parallel instances "
